@@ -19,6 +19,7 @@
 //! | an independent parser reads back exactly the same facts | `oracle::normalise` + `cfmodel::sdiff::diff(project(T), parse(out))` | all; tables that collide: `bootstrap-table`, `pool-collisions` |
 //! | every branch / switch arm / exception range / table entry designates the same instruction after rewriting | same diff, on scenes with `decor` ≥ 1 (exceptions, line numbers, local variables, type annotations anchored on the jumps, their neighbours and the end of the code) | windows, `end-of-code-tables` |
 //! | every length field exact: counts at their limit | `split-tables` (one list of 65534 / 65535 entries from several attributes must come out whole; 65536 / 65538 must be refused cleanly, never truncated), `full-constant-pool` (65531..65535 slots; renamed trees needing 1-2 entries more: written up to 65535, refused beyond) | |
+//! | … after renaming, at the constant-pool limit: "succeeds or fails cleanly", "every index in range" | `judge_pool_limit` → `judge_renamed` → `judge_tree` (same verdicts as every renamed tree) | `pool-limit-after-renaming` (c02/poollimit.rs): trees read from valid files with nearly full pools whose renamed form needs 65529..65538 (thorough 65515..65538) slots × kind of the last entries (Utf8, Class, String, Integer, Float, Long, Double, NameAndType, Fieldref, Methodref, InterfaceMethodref, MethodHandle, MethodType, Dynamic, InvokeDynamic) × site (field ConstantValue, ldc/ldc2_w operand, annotation value, bootstrap argument, member reference, class attribute / attribute name / the bootstrap table built last) × 2 renamings |
 //! | (domain edge) descriptions only a lenient reader produces | `invokeinterface-unrepresentable` (clean error demanded: the count byte cannot be stated), `unrepresentable-code` (equal/descending lookupswitch keys, zero dimensions: no panic; an output that is invalid exactly as the input was is not charged) | |
 //! | all method sizes up to 65535 | `code-length-limit` (65528..65541, with and without tables ending at the end of the code) | |
 //! | forward/backward jumps straddling ±32767 | `single-far-jump` (18 opcodes × direction × window) | |
@@ -48,7 +49,12 @@
 //!     line-number tables of 65534..65538 entries spread over 2-3 attributes; lookupswitch/multianewarray operands
 //!     no class file may state;
 //! (d) renamed trees (c02/renamed.rs): the cases named in the clause table, each renamed by the real
-//!     `dukebox::remap::remap_class` with two remappers and written.
+//!     `dukebox::remap::remap_class` with two remappers and written;
+//! (e) renamed trees at the pool limit (c02/poollimit.rs): renaming un-shares pool entries, so the pool the writer must
+//!     build for a renamed tree can exceed the pool of the valid file the tree was read from. 54 tails (site × kind of the
+//!     last pool entry) × 2 renamings × every number of needed slots in a window around 65535; the floors measure, for
+//!     one-slot and for two-slot last entries, that a file of exactly 65535 slots was written and that a need of 65536
+//!     (a Long/Double starting at 65534, and at 65535) was refused.
 //!
 //! Level `model_checking`: states = distinct (method body, set of sites the writer emitted in the long
 //! form) reached; transitions = executions of the real `duke::write_class`, each validated.
@@ -236,7 +242,7 @@ fn judge_renamed(ctx: &Ctx, acc: &mut Acc, label: &str, bytes: &[u8], mode: rena
 		},
 		Ok(Ok(t)) => t,
 	};
-	let needed = if measure { cfmodel::duke_proj::project(&tree).ok().and_then(|e| poollimit::needed_slots(&e)) } else { None };
+	let needed = if measure { timed(9, || cfmodel::duke_proj::project(&tree).ok().and_then(|mut e| poollimit::needed_slots(&mut e))) } else { None };
 	acc.ob("tree renamed by dukebox and given to the writer");
 	if label.starts_with("ldc/") {
 		// information for a floor: does the renamed tree take other ldc / ldc_w decisions than the tree it was made from?
@@ -297,8 +303,8 @@ fn judge_tree(ctx: &Ctx, acc: &mut Acc, label: &str, bytes: &[u8], tree: &duke::
 			let pool = reference.map(|p| p.pool_count).unwrap_or(u16::MAX);
 			// a renamed description may have become unrepresentable (a name longer than 65535 bytes): the independent
 			// assembler decides that, not the message of the code under test
-			let representable = renamed.is_none() || assemble(&expected, &Encoding::default()).is_ok();
-			if reference.is_some() && representable && !intent.table_overflow && oracle::must_be_writable(&expected, pool) {
+			let representable = || renamed.is_none() || assemble(&expected, &Encoding::default()).is_ok();
+			if reference.is_some() && !intent.table_overflow && oracle::must_be_writable(&expected, pool) && representable() {
 				acc.st.outcome("refused-writable-class");
 				ctx.diff("writer:refused-writable-class", &format!("write_class fails on a class every method of which fits 65535 bytes in any encoding: {msg}"), || replay_text(label, bytes));
 			} else {
@@ -460,18 +466,15 @@ fn judge_tree(ctx: &Ctx, acc: &mut Acc, label: &str, bytes: &[u8], tree: &duke::
 /// serves the floors only.
 fn judge_pool_limit(ctx: &Ctx, acc: &mut Acc, family: &poollimit::Family, target: u32) {
 	let label = family.label(target);
-	let class = family.class(target);
-	let bytes = match timed(1, || assemble(&class, &Encoding::default())) {
-		Ok(b) => b,
-		Err(AsmError::Unencodable(_)) => {
-			acc.st.outcome("unencodable-skipped");
-			return;
-		},
-		Err(AsmError::Internal(e)) => vcore::machinery_fail(&format!("{label}: assembler: {e}")),
+	let class = timed(0, || family.class(target));
+	let Some(bytes) = timed(1, || family.bytes(target)) else {
+		acc.st.outcome("unencodable-skipped");
+		return;
 	};
+	// oracle self-check: the spliced file states exactly the class meant
 	match timed(2, || cfmodel::parse(&bytes)) {
 		Ok(p) if p.class == class => {},
-		Ok(_) => vcore::machinery_fail(&format!("{label}: assembler and reference parser disagree")),
+		Ok(_) => vcore::machinery_fail(&format!("{label}: the spliced class file does not state the class it was built for")),
 		Err(e) => vcore::machinery_fail(&format!("{label}: the reference parser rejects an assembled class: {e}")),
 	}
 	drop(class);
@@ -755,6 +758,24 @@ fn main() {
 	restore_stderr();
 	drop(queue);
 	run!("renamed-trees", acc);
+
+	// (e) renamed trees whose pool lands on, below and above the 65535-slot limit
+	let families = poollimit::families(quick);
+	let phases_before: Vec<u64> = PHASE_NS.iter().map(|p| p.load(std::sync::atomic::Ordering::Relaxed)).collect();
+	silence_stderr();
+	let families: Vec<poollimit::Family> = families.par_iter().map(|(tail, mode)| poollimit::calibrate(tail, *mode)).collect();
+	let limit_cases: Vec<(usize, u32)> = (0..families.len()).flat_map(|f| poollimit::window(quick).map(move |t| (f, t))).collect();
+	let acc = limit_cases.par_iter().fold(Acc::new, |mut acc, (f, target)| {
+		judge_pool_limit(ctx, &mut acc, &families[*f], *target);
+		acc
+	}).reduce(Acc::new, Acc::merge);
+	restore_stderr();
+	if timing {
+		for (i, n) in PHASES.iter().enumerate() {
+			eprintln!("[timing] pool-limit phase {n:18} {:8.2}s (summed over threads)", (PHASE_NS[i].load(std::sync::atomic::Ordering::Relaxed) - phases_before[i]) as f64 / 1e9);
+		}
+	}
+	run!("pool-limit-after-renaming", acc);
 	let Sink { total, spaces, space_equal, .. } = sink;
 
 	if timing {
@@ -804,6 +825,23 @@ fn main() {
 	ctx.floor("backward trampoline for a jump over exactly -32769 written", 1, (total.max_tramp_bwd == -32_769) as u64);
 	ctx.floor("methods written with ldc and with ldc_w", 2, (total.obs("method written with ldc") > 0) as u64 + (total.obs("method written with ldc_w") > 0) as u64);
 	ctx.floor("code_length 65535 written", 1, total.obs("code_length 65535 written"));
+	// the pool-limit space: both sides of the limit were reached, by one-slot and by two-slot last entries
+	let side = |slots: u8, f: &dyn Fn(&Limit) -> Option<u32>, best: &dyn Fn(u32, u32) -> u32| -> Option<u32> {
+		total.limit.values().filter(|l| l.last_slots == slots).filter_map(f).reduce(best)
+	};
+	let largest_written = |slots: u8| side(slots, &|l| l.written.iter().next_back().copied(), &|a, b| a.max(b)).unwrap_or(0);
+	let smallest_refused = |slots: u8| side(slots, &|l| l.refused_needing.iter().next().copied(), &|a, b| a.min(b)).unwrap_or(0);
+	ctx.floor("pool-limit: cases given to the writer", limit_cases.len() as u64, space_equal.get("pool-limit-after-renaming").map(|x| x.0).unwrap_or(0));
+	ctx.floor("pool-limit: renamed trees needing exactly the number of pool slots aimed at", limit_cases.len() as u64, total.obs("pool-limit: renamed tree needs exactly the number of pool slots aimed at"));
+	ctx.floor("pool-limit: renamed trees written and read back equal", families.len() as u64 * 5, space_equal.get("pool-limit-after-renaming").map(|x| x.1).unwrap_or(0));
+	ctx.floor("pool-limit, last entry of one slot: largest constant_pool_count written is 65535", 1, (largest_written(1) == 65_535) as u64);
+	ctx.floor("pool-limit, last entry of one slot: smallest need refused is 65536 slots", 1, (smallest_refused(1) == 65_536) as u64);
+	ctx.floor("pool-limit, last entry of two slots: largest constant_pool_count written is 65535 (entry at 65533)", 1, (largest_written(2) == 65_535) as u64);
+	ctx.floor("pool-limit, last entry of two slots: smallest need refused is 65536 slots (entry at 65534)", 1, (smallest_refused(2) == 65_536) as u64);
+	ctx.floor("pool-limit, last entry of two slots: families refused when the entry would start at 65534 and at 65535", total.limit.values().filter(|l| l.last_slots == 2).count() as u64,
+		total.limit.values().filter(|l| l.last_slots == 2 && l.refused_needing.contains(&65_536) && l.refused_needing.contains(&65_537)).count() as u64);
+	ctx.floor("pool-limit: families (site, kind of the last entry, renaming) with a file of 65535 slots written and a need of 65536 refused", families.len() as u64,
+		total.limit.values().filter(|l| l.written.contains(&65_535) && l.refused_needing.contains(&65_536)).count() as u64);
 	ctx.floor("constant_pool_count 65535 written", 1, total.obs("constant_pool_count 65535 written"));
 
 	let extremes = json!({
@@ -813,7 +851,7 @@ fn main() {
 		"min_forward_trampoline_distance": if total.min_tramp_fwd == i64::MAX { json!(null) } else { json!(total.min_tramp_fwd) },
 		"max_backward_trampoline_distance": if total.max_tramp_bwd == i64::MIN { json!(null) } else { json!(total.max_tramp_bwd) },
 	});
-	let coverage = json!({
+	let mut coverage = json!({
 		"states": total.states.len(),
 		"transitions": total.transitions,
 		"traces_validated_against_impl": total.validated,
@@ -854,6 +892,18 @@ fn main() {
 			"fill_constants": windows::FILL,
 		},
 	});
+	coverage["pool_limit"] = total.limit.iter().map(|(k, l)| (k.clone(), json!({
+		"slots_of_last_entry": l.last_slots, "constant_pool_counts_written": l.written, "needs_refused": l.refused_needing,
+		"written_with_a_count_other_than_the_reference_needs": l.other_count,
+	}))).collect::<serde_json::Map<_, _>>().into();
+	coverage["bounds"]["pool_limit"] = json!({
+		"window_of_needed_slots": [poollimit::window(quick).start(), poollimit::window(quick).end()],
+		"tails": poollimit::tails().iter().map(|t| t.label()).collect::<Vec<_>>(),
+		"families": families.len(),
+		"cases": limit_cases.len(),
+		"renamings": "grow on every tail; owner on every tail outside a field (quick: on the tails with a two-slot constant among the last entries and on every third other tail)",
+		"warmed_attribute_names": poollimit::WARM,
+	});
 	ctx.finish(coverage, &[
 		"cfmodel's strict parser is the independent reading of JVMS ch. 4 (cross-checked: parse(assemble(m)) == m for every generated class)",
 		"the writer is judged against the projection of the tree it was given; what the reader loses is C01's business",
@@ -862,5 +912,7 @@ fn main() {
 		"the window generators aim at output distances assuming short instruction forms and a first-use constant pool; the floors measure on the writer's real output that the limits were hit exactly",
 		"renamed trees: the renaming is done by the real dukebox::remap::remap_class with two remappers of the harness; only the writer is judged (against the projection of the renamed tree), whether the renaming is right is C07's business",
 		"a clean Err on a renamed tree is accepted also when the reference assembler cannot encode the renamed description (a name that no longer fits 65535 bytes)",
+		"pool-limit space: the statement does not say which trees must be written, so a refusal is never a difference there; that the writer does write up to 65535 slots and refuses from 65536 on is measured by floors (constant_pool_count of the outputs read by the strict parser; need of the refused trees = pool of the reference assembler for the same description without its filler constants + one slot per filler constant)",
+		"pool-limit space: the class files are the reference assembler's file of the class without filler, with n Integer entries and n array elements spliced in; parse(file) == the class meant is checked for every case before the code under test is consulted",
 	]);
 }
